@@ -42,6 +42,7 @@ fn mode_class(mode: &str) -> &str {
 
 pub fn run_case(case: &mut Case) {
     let mut rng = case.rng(0);
+    LONG_ITEM_MAX.with(|m| m.set(if case.thorough { 4096 } else { 1200 }));
     let spec = gen_options(&mut rng, opts());
     let h = spec.hash64();
     case.rep.definition(h);
